@@ -94,7 +94,7 @@ int main(int argc, char** argv) {
     if (mode == "sweep") { std::vector<int> sizes; for (int n = 498; n <= (nseeds > 1 ? 600 : 540); n++) sizes.push_back(n); for (int n : {777, 779, 782, 785, 1035, 1042, 1049, 2047, 2058}) sizes.push_back(n);
         if (nseeds > 1) for (int n = 1020; n <= 1100; n++) sizes.push_back(n);
         TR.begin_exec(); sort_sweep(sizes); TR.close(); printf("{\"paths\":%zu,\"steps\":0,\"stuck\":0,\"wall\":%.2f}\n", sizes.size(), tm.s()); return 0; }
-    auto exec = [&](unsigned long seed, int den, const std::function<void()>& fn) { if (stuck >= 10) return; TR.begin_exec(); Result r = run_in_arena(3, seed, den, 30000000, fn, false); ++paths; steps += r.steps; if (r.rc) ++stuck; };
+    auto exec = [&](unsigned long seed, int den, const std::function<void()>& fn) { if (stuck >= 10) return; TR.begin_exec(); Result r = isolated_run(300, [&] { return run_in_arena(3, seed, den, 30000000, fn, false); }); ++paths; steps += r.steps; if (r.rc) ++stuck; };
     int ns[] = {1, 2, 3, 7, 8, 16, 25}; int gs[] = {1, 2, 5};
     for (int s = 0; s < nseeds; s++) {
         if (mode == "reduce") { for (int n : ns) for (int g : gs) for (int w = 0; w < 5; w++) exec(seed0 + s * 911 + n * 13 + g * 5 + w, dens[(s + w) % 8], [&] { reduce_case(w, n, g); }); }
